@@ -387,6 +387,11 @@ func H_C09_toplevel() {
 		// a bare non-empty string payload cannot be rewritten in place: forwarding it would leak it
 		verifAssert(a == "", "C09.toplevel.bare-string-not-forwarded")
 	case 5:
+		if a == "" && b == "" {
+			// the zero value of the struct: a zero payload is forwarded unchanged (C10)
+			verifAssert(out == e, "C10.toplevel.zero-struct-forwarded-unchanged")
+			return
+		}
 		p, ok := out.Payload.(pLeaf)
 		verifAssert(ok, "C10.toplevel.struct-value-type-preserved")
 		if ok {
